@@ -198,9 +198,15 @@ func VerifHarness_C13_O2() {
 	jn.c.acceptedRound = rrJoin + 6
 	s.nodes = append(s.nodes, jn)
 	s.txSeq = append(s.txSeq, 0)
+	// a validator may go quiet for a while after the reset (its roots must then
+	// come from its last consensus event on every node alike)
+	quiet := verifChoice("validator2QuietAfterReset", 2) == 1
 	for st := 0; st < 72; st++ {
 		to := (3 + st) % 4
 		from := (to + 1 + (st/4)%3) % 4
+		if quiet && st < 40 && (to == 2 || from == 2) {
+			continue
+		}
 		if err := s.pull(from, to, -1); err != nil && to != 3 && from != 3 {
 			panic(fmt.Sprintf("phase B step %d (%d<-%d): %v", st, to, from, err))
 		}
@@ -241,6 +247,79 @@ func VerifHarness_C13_O2() {
 	}
 	if jn.c.seq >= 0 {
 		verifReach("joiner-created-events-of-its-own")
+	}
+	verifReach("end")
+}
+
+// C13/O3 — a node that already has a chain of its own resets itself from an
+// anchor that lies BELOW its own last block (anchors lag the head; every
+// restart goes through catching-up), carries on, and later serves ITS anchor to
+// another restarted node: "any honest node can serve any other".  Four real
+// cores, all active before the reset; shape cases: the serving peer and how long
+// node 3 keeps gossiping before it is asked for its own anchor.
+func VerifHarness_C13_O3() {
+	s := verifNewSys(4)
+	for st := 0; st < 48; st++ {
+		to := st % 4
+		from := (to + 1 + (st/4)%3) % 4
+		if err := s.pull(from, to, -1); err != nil {
+			panic(fmt.Sprintf("phase A step %d: %v", st, err))
+		}
+	}
+	server := verifChoice("servingPeer", 3)
+	block, frame, err := s.nodes[server].c.getAnchorBlockWithFrame()
+	if err != nil {
+		verifAssume(false)
+	}
+	anchor := block.Index()
+	ownLast := s.nodes[3].c.hg.Store.LastBlockIndex()
+	delivered := len(s.nodes[3].blocks)
+	err = s.nodes[3].c.fastForward(verifTransportCopyBlock(block), verifTransportCopyFrame(frame))
+	verifAssert("honest-anchor-accepted-by-a-node-with-history", err == nil)
+	if err != nil {
+		return
+	}
+	verifAssert("store-restarts-at-the-anchor", s.nodes[3].c.hg.Store.LastBlockIndex() == anchor)
+	if ownLast > anchor {
+		verifReach("anchor-below-the-nodes-own-last-block")
+	}
+	more := 16 + 16*verifChoice("gossipBeforeServing", 2)
+	for st := 0; st < more; st++ {
+		to := (3 + st) % 4
+		from := (to + 1 + (st/4)%3) % 4
+		if err := s.pull(from, to, -1); err != nil && to != 3 {
+			panic(fmt.Sprintf("phase B step %d (%d<-%d): %v", st, to, from, err))
+		}
+	}
+	// blocks node 3 delivered after the reset continue right after the anchor and
+	// equal everybody else's
+	ref := s.nodes[0].blocks
+	after := s.nodes[3].blocks[delivered:]
+	for k, b := range after {
+		verifAssert("post-reset-blocks-continue-right-after-the-anchor", b.Index() == anchor+1+k)
+		if b.Index() < len(ref) {
+			x := ref[b.Index()]
+			verifAssert("post-reset-blocks-equal-the-full-history-nodes-blocks", x.RoundReceived() == b.RoundReceived() && string(x.FrameHash()) == string(b.FrameHash()) && len(x.Transactions()) == len(b.Transactions()))
+		}
+	}
+	if len(after) >= 1 {
+		verifReach("node-delivered-blocks-after-the-reset")
+	}
+	// node 3 now serves its own anchor to a restarted validator 2 (empty store)
+	b3, f3, err3 := s.nodes[3].c.getAnchorBlockWithFrame()
+	if err3 == nil {
+		verifReach("reset-node-offers-an-anchor")
+		fresh := verifNewSys(4).nodes[2]
+		ferr := fresh.c.fastForward(verifTransportCopyBlock(b3), verifTransportCopyFrame(f3))
+		verifAssert("anchor-served-by-a-reset-node-is-adopted", ferr == nil)
+		// and it is the very block / frame a full-history node would serve for that index
+		if fb, gerr := s.nodes[0].c.hg.Store.GetBlock(b3.Index()); gerr == nil {
+			verifAssert("reset-node-serves-the-same-block-as-full-history-nodes", string(fb.FrameHash()) == string(b3.FrameHash()) && fb.RoundReceived() == b3.RoundReceived())
+			ff, ferr2 := s.nodes[0].c.hg.GetFrame(fb.RoundReceived())
+			h0, _ := ff.Hash()
+			h3, _ := f3.Hash()
+			verifAssert("reset-node-serves-the-same-frame-as-full-history-nodes", ferr2 == nil && string(h0) == string(h3))
+		}
 	}
 	verifReach("end")
 }
